@@ -1123,7 +1123,12 @@ impl AstNode for MapConstructor {
 
 impl DataExpr {
     fn number_parse(pair: Pair<Rule>) -> Result<Self, Error> {
-        Ok(DataExpr::Number(pair.as_str().parse().unwrap()))
+        let value = pair
+            .as_str()
+            .parse()
+            .map_err(|_| Error::unsupported("integer literal out of range", &pair))?;
+
+        Ok(DataExpr::Number(value))
     }
 
     fn bool_parse(pair: Pair<Rule>) -> Result<Self, Error> {
@@ -1446,7 +1451,10 @@ impl AstNode for VariantCase {
     fn parse(pair: Pair<Rule>) -> Result<Self, Error> {
         let case = match pair.as_rule() {
             Rule::variant_case_struct => Self::struct_case_parse(pair),
-            Rule::variant_case_tuple => todo!("parse variant case tuple"),
+            Rule::variant_case_tuple => Err(Error::unsupported(
+                "tuple variant cases are not supported",
+                &pair,
+            )),
             Rule::variant_case_unit => Self::unit_case_parse(pair),
             x => unreachable!("Unexpected rule in datum_variant: {:?}", x),
         }?;
@@ -1496,6 +1504,10 @@ impl AstNode for ChainSpecificBlock {
                 let block = crate::cardano::CardanoBlock::parse(block)?;
                 Ok(ChainSpecificBlock::Cardano(block))
             }
+            Rule::bitcoin_block => Err(Error::unsupported(
+                "bitcoin blocks are not supported",
+                &block,
+            )),
             x => unreachable!("Unexpected rule in chain_specific_block: {:?}", x),
         }
     }
